@@ -456,28 +456,71 @@ Proof. intros [[a|] [b|] [c|]]; unfold TInv; cbn; intros H P; congruence. Qed.
 Lemma reparse_stable : forall t, TInv t -> reparse t = t.
 Proof. intros [[a|] [b|] [c|]]; unfold TInv; cbn; intros H; try discriminate H; reflexivity. Qed.
 
-(* ---- plain optional value properties over independent slots --------------------------------- *)
-Lemma slot_put_get_same : forall d i v, (i < length d)%nat -> slot_get (slot_put d i v) i = v.
-Proof.
-  induction d as [|x r IH]; intros i v H; cbn in *; [lia|].
-  destruct i; cbn; [reflexivity | apply IH; lia].
-Qed.
+(* ---- value properties over independent slots ------------------------------------------------ *)
+Section ValuePropsProofs.
+  Variable T : Type.
+  Variable fmt : nat -> Z -> T.
+  Variable parse : nat -> T -> Z.
 
-Lemma slot_put_get_other : forall d i j v, i <> j -> slot_get (slot_put d i v) j = slot_get d j.
-Proof.
-  induction d as [|x r IH]; intros i j v H; cbn; [reflexivity|].
-  destruct i, j; cbn; try reflexivity; [congruence | apply IH; congruence].
-Qed.
+  Lemma vput_same : forall (l : list (option (vnode T))) i x, (i < length l)%nat -> nth_error (vput l i x) i = Some x.
+  Proof.
+    induction l as [|y r IH]; intros i x H; cbn in *; [lia|].
+    destruct i; cbn; [reflexivity | apply IH; lia].
+  Qed.
 
-Theorem slot_get_set : forall d i v, (i < length d)%nat -> slot_get (slot_set d i v) i = v.
-Proof.
-  intros d i v H. unfold slot_set. destruct (slot_get d i), v; apply slot_put_get_same; assumption.
-Qed.
+  Lemma vput_other : forall (l : list (option (vnode T))) i j x, i <> j -> nth_error (vput l i x) j = nth_error l j.
+  Proof.
+    induction l as [|y r IH]; intros i j x H; cbn; [reflexivity|].
+    destruct i, j; cbn; try reflexivity; [congruence | apply IH; congruence].
+  Qed.
 
-Theorem slot_frame : forall d i j v, i <> j -> slot_get (slot_set d i v) j = slot_get d j.
-Proof.
-  intros d i j v H. unfold slot_set. destruct (slot_get d i), v; apply slot_put_get_other; assumption.
-Qed.
+  Lemma nth_error_lt : forall (l : list (option (vnode T))) i y, nth_error l i = Some y -> (i < length l)%nat.
+  Proof. intros l i y H. apply nth_error_Some. congruence. Qed.
+
+  (* read-back: for every slot of the record and every value the slot's codec round-trips (None included) *)
+  Theorem opt_get_set : forall r i v, (i < length (vr_slots r))%nat ->
+    (forall x, v = Some x -> parse i (fmt i x) = x) ->
+    vget parse (opt_set fmt r i v) i = v.
+  Proof.
+    intros r i v H C. unfold opt_set, vget.
+    destruct (nth_error (vr_slots r) i) as [[n|]|] eqn:E.
+    - destruct v as [x|]; cbn; rewrite vput_same by assumption; [rewrite (C x eq_refl)|]; reflexivity.
+    - destruct v as [x|]; cbn; rewrite vput_same by assumption; [rewrite (C x eq_refl)|]; reflexivity.
+    - apply nth_error_None in E. lia.
+  Qed.
+
+  (* frame: every other slot keeps its node (identity and text) *)
+  Theorem opt_frame : forall r i j v, i <> j ->
+    nth_error (vr_slots (opt_set fmt r i v)) j = nth_error (vr_slots r) j.
+  Proof.
+    intros r i j v H. unfold opt_set.
+    destruct (nth_error (vr_slots r) i) as [[n|]|]; destruct v; cbn; try reflexivity; apply vput_other; assumption.
+  Qed.
+
+  (* the three-way branch: present + value keeps the node, absent + value creates a fresh one *)
+  Theorem opt_set_identity : forall r i x,
+    match nth_error (vr_slots r) i with
+    | Some (Some n) => nth_error (vr_slots (opt_set fmt r i (Some x))) i = Some (Some (mkvnode (vn_id n) (fmt i x)))
+    | Some None => nth_error (vr_slots (opt_set fmt r i (Some x))) i = Some (Some (mkvnode (vr_next r) (fmt i x)))
+    | None => opt_set fmt r i (Some x) = r
+    end.
+  Proof.
+    intros r i x. unfold opt_set. destruct (nth_error (vr_slots r) i) as [[n|]|] eqn:E; cbn;
+      try reflexivity; apply vput_same; eapply nth_error_lt; eassumption.
+  Qed.
+
+  Theorem req_get_set : forall r i x n, nth_error (vr_slots r) i = Some (Some n) ->
+    parse i (fmt i x) = x ->
+    let '(r', res) := req_set fmt r i x in
+    res = Ok tt /\ vget parse r' i = Some x
+    /\ nth_error (vr_slots r') i = Some (Some (mkvnode (vn_id n) (fmt i x)))
+    /\ forall j, i <> j -> nth_error (vr_slots r') j = nth_error (vr_slots r) j.
+  Proof.
+    intros r i x n E C. unfold req_set. rewrite E. cbn. unfold vget. cbn.
+    pose proof (nth_error_lt _ _ _ E) as L.
+    rewrite vput_same by assumption. rewrite C. repeat split. intros j H. apply vput_other. assumption.
+  Qed.
+End ValuePropsProofs.
 
 (* ---- whole-cost assignment ----------------------------------------------------------------------- *)
 Theorem whole_assignment : forall s c ops s' rs, Normal c ->
@@ -508,3 +551,14 @@ Proof.
   exists (mkcost Unit [KNumber 1; KCurrency 2]), [OTotal (Some 5)].
   split; [reflexivity | vm_compute; discriminate].
 Qed.
+
+(* other shapes outside Normal that the parser produces: a repeated date / label / asterisk / number *)
+Theorem duplicates_refuted :
+  Forall (fun c : cost * list cop =>
+            normal_b (fst c) = false /\ abs (fst (run (fst c) (snd c))) <> fst (sp_run (abs (fst c)) (snd c)))
+    [ (mkcost Unit [KDate 1; KDate 2], [ODate None]);
+      (mkcost Unit [KAsterisk; KAsterisk], [OMerge false]);
+      (mkcost Unit [KLabel 1; KLabel 2], [OLabel None]);
+      (mkcost Unit [KNumber 1; KNumber 2], [OPer None]);
+      (mkcost Total [KCurrency 1; KCurrency 2], [OCur None]) ].
+Proof. repeat constructor; vm_compute; discriminate. Qed.
